@@ -115,6 +115,11 @@ type VMRes struct {
 type TxD struct {
 	Type    uint16   `json:"type"`
 	Key     int      `json:"key"` // 1..NKeys: signed with that key; 0: no signature
+	// PreKey > 0: the object is first signed with PreKey and its sender looked up once (memoised), then that OBJECT is
+	// handed to types.SignTx with Key — "same payment, other payer" (the signer is Key's owner)
+	PreKey int `json:"preKey,omitempty"`
+	// BadSig != "": the signature bytes are present but do not recover to anybody: recid9 | zero65 | short10 | rzero | shigh | len66
+	BadSig string `json:"badSig,omitempty"`
 	To      *int     `json:"to,omitempty"`
 	Amount  *big.Int `json:"amount,omitempty"`
 	MaxFee  *big.Int `json:"maxFee,omitempty"`
@@ -303,9 +308,7 @@ func newFix(cs *Case) (*fix, error) {
 	f := &fix{cs: cs, ids: map[common.Address]int{}, nextID: 900, cids: map[string]int{}, hashes: map[string]int{}}
 	for id := 0; id <= NIds; id++ {
 		f.ids[AddrOf(id)] = id
-		if id > 0 {
-			f.watch = append(f.watch, id)
-		}
+		f.watch = append(f.watch, id) // id 0 = the zero address (it can hold coins: burn-like transfers, genesis)
 	}
 	ccfg := *blockchain.GetDefaultConsensusConfig()
 	ccfg.EnableUpgrade10, ccfg.EnableUpgrade11, ccfg.EnableUpgrade12 = cs.U10, cs.U11, cs.U12
@@ -429,13 +432,91 @@ func buildTx(d *TxD) *types.Transaction {
 		tx.Payload = unhex(d.Payload)
 	}
 	if d.Key >= 1 && d.Key <= NKeys {
-		s, err := types.SignTx(tx, keys[d.Key-1])
+		src := tx
+		if d.PreKey >= 1 && d.PreKey <= NKeys && d.BadSig == "" {
+			first, err := types.SignTx(tx, keys[d.PreKey-1])
+			if err != nil {
+				panic(err)
+			}
+			types.Sender(first) // populate whatever the object memoises about its sender
+			first.Hash()
+			src = first
+		}
+		s, err := types.SignTx(src, keys[d.Key-1])
 		if err != nil {
 			panic(err)
 		}
-		return s
+		tx = s
+	}
+	if d.BadSig != "" {
+		sig := make([]byte, 65)
+		if len(tx.Signature) == 65 {
+			copy(sig, tx.Signature)
+		}
+		switch d.BadSig {
+		case "recid9":
+			sig[64] = 9
+		case "zero65":
+			sig = make([]byte, 65)
+		case "short10":
+			sig = sig[:10]
+			sig[0] |= 1
+		case "rzero":
+			for i := 0; i < 32; i++ {
+				sig[i] = 0
+			}
+		case "shigh":
+			for i := 32; i < 64; i++ {
+				sig[i] = 0xff
+			}
+		case "len66":
+			sig = append(sig, 1)
+		}
+		tx = &types.Transaction{Type: tx.Type, AccountNonce: tx.AccountNonce, Epoch: tx.Epoch, To: tx.To, Amount: tx.Amount,
+			MaxFee: tx.MaxFee, Tips: tx.Tips, Payload: tx.Payload, Signature: sig}
 	}
 	return tx
+}
+
+// WireSigner recovers the signer of a transaction independently of the transaction object's memoised sender: the
+// object is serialised, decoded into a fresh object, and the public key is recovered from the decoded signature over
+// the decoded signature hash.  ok=false: nobody signed these bytes.
+func WireSigner(tx *types.Transaction) (addr common.Address, ok bool) {
+	defer func() {
+		if r := recover(); r != nil {
+			addr, ok = common.Address{}, false
+		}
+	}()
+	b, err := tx.ToBytes()
+	if err != nil {
+		return common.Address{}, false
+	}
+	fresh := new(types.Transaction)
+	if err := fresh.FromBytes(b); err != nil {
+		return common.Address{}, false
+	}
+	if len(fresh.Signature) != 65 {
+		return common.Address{}, false
+	}
+	h := crypto.SignatureHash(fresh)
+	pub, err := crypto.Ecrecover(h[:], fresh.Signature)
+	if err != nil || len(pub) != 65 || pub[0] != 4 {
+		return common.Address{}, false
+	}
+	var a common.Address
+	copy(a[:], crypto.Keccak256(pub[1:])[12:])
+	if a == (common.Address{}) {
+		return a, false
+	}
+	return a, true
+}
+
+// ExpectedSigner: what the generator knows — the owner of the key that signed last, or nobody.
+func ExpectedSigner(d *TxD) (common.Address, bool) {
+	if d.BadSig != "" || d.Key < 1 || d.Key > NKeys {
+		return common.Address{}, false
+	}
+	return keyAddrs[d.Key-1], true
 }
 
 // ---- protocol lines ----
